@@ -162,10 +162,17 @@ def run(tier):
             W = 1 + (j + len(longs)) % 3
             longs.append(dict(op=op, W=W, minp=W, keys=[1] * n, vals=[1 + (r * 7 % 5) for r in range(n)], emb=("f64" if len(longs) % 2 else "i64"),
                               level=("api" if len(longs) % 3 else "numba"), kenc="f64", vcont="np", long=1))
+    # long WINDOWS (2^15 rows and more: beyond 16-bit window positions / counts), periodic values with a closed-form definition
+    for W, P in ([(32768, 32771), (40000, 39989)] if tier == "quick" else [(32767, 32771), (32768, 32771), (40000, 39989), (66000, 66013), (65536, 1000)]):
+        n = W + 30011
+        for op in (["sum", "max"] if tier == "quick" else ["sum", "max", "min", "shift", "diff"]):
+            longs.append(dict(op=op, W=W, minp=(1 if len(longs) % 2 else W), keys=[1] * n, vals=[2 if r % P == 0 else 1 for r in range(1, n + 1)],
+                              emb=("f64" if len(longs) % 3 else "i64"), level=("api" if len(longs) % 2 else "numba"), kenc="f64", vcont="np", long=1, period=P))
     tl = ck.drive(rowwise.run_roll, longs, warm_cases=[], procs=4)
     for k, t in enumerate(tl):
         rej = ck.validate("Trace_GBRolling", [t], trace_cfg(), f"long{k}", nontrivial=lambda t: True, key=lambda t: json.dumps([t["op"], t["W"], len(t["keys"]), t["emb"]]))
         ck.judge(rej, None, {})
+    ck.notes["long_runs"] = [[t["op"], t["W"], len(t["keys"]), t.get("period")] for t in tl]
     ck.assumptions += ["embeddings / projection trusted; integer inputs are rolled through float64 by design (exactness is claimed for float and temporal inputs only)",
                        "outputs at null-key and unselected rows are not judged by C09"]
     return ck.finish()
